@@ -1,7 +1,8 @@
 """C01 — single-layer Galerkin entries equal the 4-fold heat-kernel integral."""
 from ..common import seed_rng
 from ..formulas_tie import validate
-from ..slchecks import RealOps, aspect, corr_bilform, describe, dummy_children, ok_aspect, random_real_mesh, seam_and_corner_pairs
+from ..slchecks import (RealOps, StubElem, aspect, corr_bilform, describe, dummy_children, make_curve, ok_aspect, random_real_mesh,
+                        seam_and_corner_pairs)
 from .C04 import translate  # noqa: F401  (same generated formulas)
 
 PROP_MODS = ['Stbem.Props.C01', 'Stbem.Props.PanelsTie']
@@ -98,4 +99,44 @@ def search(res, tier, boost=False):
                         res.violation('C01:entry-inaccurate:matrix-%s' % ('pool-path' if use_mp else 'serial-path'),
                                       dict(curve=cname, use_mp=use_mp, test=describe(te), trial=describe(tr), i=i, j=j,
                                            computed=float(mat[i, j]), reference=ref, scaled_error=err))
+    # (ancestor, descendant) pairs sharing an end point, 1..6 space levels apart, with overlapping time intervals - both are
+    # elements of one refinement tree (the estimators pair an element with its children; deeper pairs arise when coarse
+    # and fine meshes of one hierarchy are combined).  Straight sides only; the reference is the closed-form path of
+    # the code (validated against the independent numeric reference above), the subject is the quadrature path.  On the
+    # shipped code the two agree to 2.2e-9 * scale up to 6 levels (1.6e-8 at 7, 1.6e-7 at 8: beyond the quantifier).
+    times = [(0.0, 1.0), (0.0, 0.5), (0.5, 1.0), (0.25, 0.5), (0.5, 0.75), (0.0, 0.25), (0.75, 1.0)]
+    for cname in ('UnitSquare', 'LShape') if tier == 'quick' and not boost else ('UnitSquare', 'LShape', 'PiSquare', 'UnitInterval'):
+        gamma = make_curve(cname)
+        import contextlib
+        import io
+        from src.mesh import MeshParametrized
+        with contextlib.redirect_stdout(io.StringIO()):
+            ops = RealOps(gamma, MeshParametrized(gamma))
+        for it in range((18 if tier == 'quick' else 90) * (2 if boost else 1)):
+            pc = rng.randrange(len(gamma.pw_gamma))
+            lo, hi = float(gamma.pw_start[pc]), float(gamma.pw_start[pc + 1])
+            la, k = rng.randint(0, 3), 1 + it % 6
+            ha = (hi - lo) * 2.0**-la
+            ma = rng.randrange(2**la)
+            a = (lo + ma * ha, lo + (ma + 1) * ha)
+            hb = ha * 2.0**-k
+            b = (a[0], a[0] + hb) if (it // 6) % 2 == 0 else (a[1] - hb, a[1])
+            ta, tb = rng.choice(times), rng.choice(times)
+            if max(ta[0], tb[0]) >= min(ta[1], tb[1]):
+                continue
+            e1, e2 = StubElem(ta, a, gamma.pw_gamma[pc]), StubElem(tb, b, gamma.pw_gamma[pc])
+            if not (ok_aspect(e1) and ok_aspect(e2)):
+                continue
+            for te, tr in ((e1, e2), (e2, e1)):
+                if te.time_interval[1] <= tr.time_interval[0]:
+                    continue
+                vq, vx = ops.SL[False].bilform(tr, te), ops.SL[True].bilform(tr, te)
+                sc = ops.scale(te, tr)
+                err = abs(vq - vx) / sc
+                worst = max(worst, err)
+                res.count(('ancestor-shared-end', cname, pc, la, k, repr(te), repr(tr)), True)
+                if err > 1e-7:
+                    res.violation('C01:entry-inaccurate:quadrature-path:ancestor-shared-end',
+                                  dict(curve=cname, test=describe(te), trial=describe(tr), levels_apart=k, computed=float(vq),
+                                       closed_form=float(vx), scaled_error=err))
     res.notes['worst_scaled_error'] = worst
